@@ -66,8 +66,11 @@ func vfBoundary(rng *rand.Rand, P, M int) int {
 	if v < 0 {
 		v = 0
 	}
-	if v > 6000 {
+	if v > 6000 && P <= 32768 {
 		v = 6000 // keep files tiny; P and M are drawn small when their product matters
+	}
+	if v > 450000 {
+		v = 450000
 	}
 	return v
 }
@@ -153,7 +156,38 @@ func c01Gen(class string, seed uint64, tier string) *vfScenario {
 	}
 	sc.Cfg["ssites"] = int64(1 + rng.IntN(3))
 	sc.Cfg["csites"] = 1 | 2 | 4
-	sc.Ops = c01GenOps(rng, P, M, 1+rng.IntN(6), false)
+	if mt := sc.Cfg["maxtx"]; mt != 0 && rng.IntN(2) == 0 {
+		// a client packet size above the default maximum payload but within the server's configured one
+		if mt > 200000 {
+			mt = 200000
+			sc.Cfg["maxtx"] = mt
+		}
+		P = int(mt) - rng.IntN(3)
+		M = 1 + rng.IntN(3)
+		sc.Cfg["P"], sc.Cfg["M"] = int64(P), int64(M)
+		sc.Cfg["size0"] = int64([]int{P - 1, P, P + 1, 2*P + 1, P + P/2}[rng.IntN(5)])
+		sc.Cfg["nofragc"] = 1
+	}
+	nops := 1 + rng.IntN(6)
+	if sc.Cfg["P"] > 32768 {
+		nops = 1 + rng.IntN(2)
+	}
+	sc.Ops = c01GenOps(rng, P, M, nops, false)
+	if rng.IntN(4) == 0 {
+		// a read-only handle (the request server serves it through a different path than a read-write one)
+		sc.Cfg["rdonly"] = 1
+		var ro []vfOp
+		for _, op := range sc.Ops {
+			switch op.K {
+			case "read", "readat", "writeto", "seek":
+				ro = append(ro, op)
+			}
+		}
+		if len(ro) == 0 {
+			ro = []vfOp{{K: "readat", Off: 0, N: vfBoundary(rng, P, M) + 1}, {K: "writeto"}}
+		}
+		sc.Ops = ro
+	}
 	return sc
 }
 
@@ -201,6 +235,9 @@ func vfStartFileSystem(r *vfRun, initial []byte) (*vfFileSystem, error) {
 		c2s, s2c = v.peer.c2s, v.peer.s2c
 		v.name = "/f"
 		v.served = func() []byte { v.peer.mu.Lock(); defer v.peer.mu.Unlock(); return append([]byte(nil), v.peer.files["/f"]...) }
+	}
+	if sc.cfg("nofragc", 0) != 0 {
+		c2s.noFrag, s2c.noFrag = true, true
 	}
 	P, M := int(sc.cfg("P", 4)), int(sc.cfg("M", 2))
 	c, err := vfStartClient(sim, c2s, s2c, MaxPacketUnchecked(P), MaxConcurrentRequestsPerFile(M),
@@ -334,7 +371,19 @@ func c01Exec(r *vfRun) {
 	}
 	env := &vfClientEnv{sim: sim, prop: "C01", c: v.c, files: map[int]*File{}, tag: sc.Seed}
 	ref := &refFile{data: append([]byte(nil), initial...)}
-	prog := append([]vfOp{{K: "open", P: v.name, H: 0, A: int64(os.O_RDWR)}}, sc.Ops...)
+	openFlags := int64(os.O_RDWR)
+	if sc.cfg("rdonly", 0) != 0 {
+		openFlags = 0 // Client.Open: read-only
+		for _, op := range sc.Ops {
+			switch op.K {
+			case "read", "readat", "writeto", "seek":
+			default:
+				r.res.Skipped = "invalid-program"
+				return
+			}
+		}
+	}
+	prog := append([]vfOp{{K: "open", P: v.name, H: 0, A: openFlags}}, sc.Ops...)
 	results := make([]*vfOpResult, len(prog))
 	var mismatch string
 	chunks := 0
